@@ -110,6 +110,10 @@ func (core *JApiCore) compileUserTypeWithAllDependencies(name string) error {
 
 	tt, err := fetchUsedUserTypes(currUT, core.userTypes)
 	if err != nil {
+		var e usedUserTypeError
+		if errors.As(err, &e) && dd.GetValue(e.name) != nil {
+			return jschemaToJAPIError(err, dd.GetValue(e.name))
+		}
 		return jschemaToJAPIError(err, dd.GetValue(name))
 	}
 
@@ -137,7 +141,7 @@ func (core *JApiCore) compileUserTypeWithAllDependencies(name string) error {
 	// Check user type is correct.
 	// We should do it here 'cause it will simplify further processing.
 	if err := currUT.Check(); err != nil {
-		return jschemaToJAPIError(err, dd.GetValue(name))
+		return core.userTypeToJAPIError(err, name)
 	}
 
 	core.userTypes.Set(name, currUT)
@@ -180,6 +184,20 @@ func (core *JApiCore) checkUserType(name string) *jerr.JApiError {
 	}
 
 	return d.BodyErrorIndex(e.Message(), e.Position())
+}
+
+// userTypeToJAPIError converts the error of the check of a user type. The error
+// can be about another type which this one uses: then its position is a
+// position in the body of that type.
+func (core *JApiCore) userTypeToJAPIError(err error, name string) *jerr.JApiError {
+	dd := core.catalog.GetRawUserTypes()
+	var e kit.Error
+	if errors.As(err, &e) && e.IncorrectUserType() != "" && e.IncorrectUserType() != name {
+		if d := dd.GetValue(e.IncorrectUserType()); d != nil {
+			return d.BodyErrorIndex(e.Message(), e.Position())
+		}
+	}
+	return jschemaToJAPIError(err, dd.GetValue(name))
 }
 
 func jschemaToJAPIError(err error, d *directive.Directive) *jerr.JApiError {
